@@ -2,7 +2,7 @@ from registry import reg, Check
 
 reg(Check(
     "C04", "c04",
-    coq_targets=["Stream/C04Check.vo", "Stream/StreamProofs.vo", "Props/C04.vo"],
+    coq_targets=["Stream/C04Check.vo", "Stream/StreamProofs.vo", "Stream/C04CheckProofs.vo", "Props/C04.vo"],
     assumptions=[
         "at most one write in flight per target between its tree write and the end of its feed callbacks (implied by one writer goroutine per target; without it C04_stream_converges_refuted, known finding KF-C04-1)",
         "no subscription path is longer than a cached leaf path it is compatible with (then ctree.Query and the match trie select the same leaves; otherwise the subscriber is streamed updates of a leaf its snapshot did not contain)",
